@@ -66,7 +66,9 @@ def replay(job):
         if not conf["fetch"]:
             args.append("--no-fetch")
         before = {k: v for k, v in proj.snapshot().items() if not k.endswith("_hook.sh")}
-        r = drive.cli(args, cwd=proj.root, env=fv.env())
+        # a third of the runs start in an environment that already carries BUMPVER_* variables (a nested invocation from another project's hook, a CI job)
+        ambient = {"BUMPVER_OLD_VERSION": "9.9.9", "BUMPVER_NEW_VERSION": "9.9.10"} if seed % 3 == 0 else {}
+        r = drive.cli(args, cwd=proj.root, env=dict(fv.env(), **ambient))
         after = {k: v for k, v in proj.snapshot().items() if not k.endswith("_hook.sh")}
         raw = fv.log()
     log = []
